@@ -44,6 +44,8 @@ def applicable(prog, lang) -> bool:
                 return False
             if it["v"] == "throws" and lang != "Java":
                 return False
+            if it["v"] == "tailwrap" and lang not in ("Java", "TypeScript", "Python"):
+                return False  # only these header patterns know tokens between `)` and the body
             if it["v"] == "lineabove" and lang in ("JavaScript", "TypeScript"):
                 return False
         if k == "C" and it["v"] == "try" and lang == "C":
@@ -105,6 +107,10 @@ def render(prog, lang, layout=0):
                 if v == "multi":
                     L(f"def {name}(a,")
                     L("        b):")
+                elif v == "tailwrap":
+                    L(f"def {name}(a, b) -> Dict[")
+                    L("        str, int")
+                    L("]:")
                 elif v == "bracegroup":
                     L(f'def {name}(a, b={{"k": 1}}):')
                 else:
@@ -127,6 +133,10 @@ def render(prog, lang, layout=0):
                 elif v == "nextbrace":
                     L(f"{pre}{kw}{name}({ty('a')}, {ty('b')}){rt}")
                     L("{")
+                elif v == "tailwrap":
+                    L(f"{pre}{kw}{name}({ty('a')}, {ty('b')})")
+                    L("    : number")
+                    L("{")
                 elif v == "bracegroup":
                     L(f"{pre}{kw}{name}({{a, b}}, c = {{k: 1}}){rt} {{")
                 else:
@@ -141,6 +151,10 @@ def render(prog, lang, layout=0):
                     L(f"{pre}int {name}(int a, int b) throws Exception, Error {{")
                 elif v == "lineabove":
                     L(f"{pre}{rtype}{name}(int a, int b) {{")
+                elif v == "tailwrap":
+                    L(f"{pre}int {name}(int a, int b)")
+                    L("        throws Exception,")
+                    L("               Error {")
                 elif v == "multi":
                     L(f"{pre}int {name}(int a,")
                     L("        int b) {")
